@@ -86,10 +86,10 @@ Init == /\ \E tp \in TreeParams : dag = MkDag(tp)
         /\ root = RootId
         /\ req = NoReq /\ term = 0 /\ need = {} /\ todo = <<>> /\ car = <<>> /\ carRoot = 0
         /\ phase = "idle" /\ rawResp = NoRaw
-Next == \/ /\ phase = "idle"
+Next == \/ /\ phase = "idle" /\ rawResp = NoRaw        \* one request per behaviour is enough for M
            /\ \E p \in {x \in AllPaths(dag, root) : Resolve(dag, root, x).ok} :
                 \/ \E q \in ReqsFor(dag, root, p) : Request(dag, root, q)
-                \/ rawResp = NoRaw /\ RawBlock(dag, root, p)
+                \/ RawBlock(dag, root, p)
         \/ Load
         \/ Finish
 Spec == Init /\ [][Next]_vars
